@@ -58,7 +58,10 @@ class CacheFactory(object):
         value = self.expiredCache.get(id)
         if value:
             # it's actually a weakref:
-            return value()
+            obj = value()
+            if obj is not None:
+                return obj
+            # a dead weak reference says nothing; look in the main cache
         if not self.doCache:
             return None
         return self.cache.get(id)
